@@ -2,7 +2,8 @@
 import vlib, proglib
 from proglib import DT, DT_BITS
 
-PROP_FILES = ["Properties_C01.v"]
+import glob, os as _os
+PROP_FILES = sorted(_os.path.basename(f) for f in glob.glob(_os.path.join(vlib.COQ, "Properties_C01*.v")))
 FIRST_IDS = [0, 0, 0, 1, 3, 7, 8, 16, -5, 2**40 + 1, 1000]
 
 
@@ -53,6 +54,10 @@ def gen_signal_stream(rng, sid, dt, tier):
             n = rng.randrange(1, max(2, total))
         n = max(1, min(n, total - pos))
         pat = rng.choice([2, 2, 1, 4, 0]) if DT_BITS[dt] > 1 else rng.choice([2, 2, 2, 0])
+        if DT_BITS[dt] <= 8 and rng.random() < 0.3:
+            # a constant run covering whole blocks: these are omitted automatically and reconstructed on read
+            n = max(1, min(total - pos, rng.choice([1, 2, 3]) * a_spd + rng.choice([0, 0, 1, a_sdf])))
+            pat = 0
         ops.append("fsr %d %d %d %d %d" % (sid, first + pos, n, pat, callseed + len(ops)))
         pos += n
     sigop = proglib.sigdef_op(sid, 1, dt, spd=spd, sdf=sdf, eps=eps, sumdf=sumdf)
@@ -81,6 +86,11 @@ def gen_reads(rng, sid, st, n):
             ln = rng.randrange(1, total - start + 1)
         ln = max(1, min(ln, total - start))
         out.append("rd %d %d %d" % (sid, start, ln))
+        if rng.random() < 0.25:
+            # the same window again, then the block before it: results must not depend on earlier reads
+            out.append("rd %d %d %d" % (sid, start, ln))
+            b0 = (start // spd) * spd
+            out.append("rd %d %d %d" % (sid, b0, min(spd, total - b0)))
     # out-of-range requests must be errors
     out.append("rd %d %d %d" % (sid, total, 1))
     out.append("rd %d %d %d" % (sid, max(0, total - 3), 5))
@@ -130,7 +140,13 @@ def signature(script, mism):
 def run(ctx):
     import os
     prop_files = [f for f in PROP_FILES if os.path.exists(os.path.join(vlib.COQ, f))]
-    vlib.build(ctx, prop_files, variants=("plain",))
+    vlib.build(ctx, prop_files, variants=("plain", "asan"))
+    if _os.path.exists(_os.path.join(vlib.VERIF, "tools", "props", "C01_bits.py")) and "drv_bits.ml" in open(_os.path.join(vlib.VERIF, "ocaml", "DRIVERS")).read():
+        import C01_bits
+        C01_bits.run_bits(ctx, build=False)
+    if _os.path.exists(_os.path.join(vlib.VERIF, "tools", "props", "C01_pyr.py")) and "drv_pyr.ml" in open(_os.path.join(vlib.VERIF, "ocaml", "DRIVERS")).read():
+        import C01_pyr
+        C01_pyr.run_pyr(ctx)
     n = 160 if ctx.tier == "quick" else 1200
     cases = [gen_case(ctx.rng, ctx.tier) for _ in range(n)]
     scripts = [c[0] for c in cases]
